@@ -38,12 +38,33 @@ func concProgram(t jsonline.Template, g int, iters int) string {
 		case 0:
 			sb.WriteString(t.CreateRowEmpty().String())
 		case 1:
+			// a row made from a map that leaves declared columns out, then imports IN PLACE into columns the map
+			// did not mention (by key, by position, from JSON text): the row's own cells, nobody else's
 			r, err := t.CreateRow(map[string]interface{}{"a": g, "bin": []byte{byte(g), byte(i)}})
 			if err == nil {
+				_ = r.ImportAtKey("h", g*7919+i)
+				_ = r.ImportAtKey("dd", int64(1632518460+g*86400))
+				_ = r.ImportAtIndex(3, time.Unix(1600000000+int64(g)*3600+int64(i), 0).UTC().Format(time.RFC3339))
+				_ = r.UnmarshalJSON([]byte(fmt.Sprintf(`{"flag":%v,"c_auto":%d}`, (g+i)%2 == 0, g)))
+				sb.WriteString(r.DebugString())
 				sb.WriteString(r.String())
+				// the bytes a cell hands out belong to the row: its owner flips one in place
+				if b := r.GetBytes("flag"); len(b) > 0 {
+					b[0] ^= 1
+					sb.WriteString(fmt.Sprintf(" flag=%v", r.GetBytes("flag")))
+				}
 			}
 		case 2:
-			r, err := t.CreateRow([]interface{}{g, "x", i})
+			r, err := t.CreateRow([]interface{}{g})
+			if err == nil {
+				_ = r.ImportAtIndex(1, "AQI=")
+				_ = r.ImportAtKey("h", fmt.Sprintf("g%d-%d", g, i))
+				_ = r.Import(map[string]interface{}{"dd": "2021-09-24"})
+				_ = r.ImportAtKey("flag", g%3 == 0)
+				sb.WriteString(r.DebugString())
+				sb.WriteString(r.String())
+			}
+			r, err = t.CreateRow([]interface{}{g, "x", i})
 			if err == nil {
 				sb.WriteString(r.String())
 			}
@@ -107,6 +128,7 @@ func genC20(cw *caseWriter, seed uint64, tier string) {
 		cols := []colDesc{{name: "a", format: "numeric", ty: "int"}, {name: "bin", format: "binary", ty: "bytes"},
 			{name: "s", isSub: true, sub: []colDesc{{name: "zz", format: "auto", ty: "none"}, {name: "aa", format: "string", ty: "none"}}},
 			{name: "d", format: "datetime", ty: "none"}, {name: "h", format: "hidden", ty: "none"}, {name: "dd", format: "date", ty: "none"},
+			{name: "flag", format: "auto", ty: "bytes"},
 			{name: "hh", isSub: true, sub: []colDesc{{name: "o", isSub: true, sub: []colDesc{{name: "n", format: "auto", ty: "none"}, {name: "m", format: "string", ty: "none"}}}, {name: "x", format: "auto", ty: "none"}}}}
 		for _, f := range fmtNames {
 			if r.chance(1, 2) {
